@@ -802,6 +802,36 @@ class CFG:
             out.append(t)
         return out
 
+    def exc_route(self, cls: str) -> Callable[["Node", "Node", str], bool]:
+        """Edge filter for following ONE propagating exception of class `cls`: at every node the exceptional /
+        re-raising edges that this exception cannot take (a later handler, the way out past a handler that catches it)
+        are skipped."""
+        memo: dict[tuple[int, str], set[int]] = {}
+
+        def allowed(a: Node, lab: str) -> set[int]:
+            key = (a.id, lab)
+            if key not in memo:
+                out: set[int] = set()
+                for t, l2 in a.succ:
+                    if l2 != lab:
+                        continue
+                    if t.kind == "handler":
+                        classes = self.handler_classes(t.ast)  # type: ignore[arg-type]
+                        if any(exc_is_sub(cls, c) for c in classes):
+                            out.add(t.id)
+                            break
+                        if any(exc_is_sub(c, cls) for c in classes):
+                            out.add(t.id)
+                        continue
+                    out.add(t.id)
+                memo[key] = out
+            return memo[key]
+
+        def skip(a: Node, b: Node, lab: str) -> bool:
+            return lab in ("exc", "reraise") and b.id not in allowed(a, lab)
+
+        return skip
+
     # ------------------------------------------------------------------ presentation
     @staticmethod
     def show_path(path: list[Node] | None, limit: int = 14) -> str:
